@@ -66,9 +66,9 @@ Proof. rewrite nth_error_app2 by lia. rewrite Nat.sub_diag. reflexivity. Qed.
 
 (* ---------------------------------------------------------------- callbacks *)
 
-Lemma fini_at_tok sz bsz n P t R c :
+Lemma fini_at_tok hf sz bsz n P t R c :
   0 < sz -> length P = n -> (n + 1) * sz <= bsz ->
-  fini_at sz bsz (n * sz) (P ++ STok t :: R) c = Ok (P ++ SDead t :: R, logev (EFini t) c).
+  fini_at hf sz bsz (n * sz) (P ++ STok t :: R) c = Ok (P ++ dead hf t :: R, logev (EFini t) c).
 Proof.
   intros Hs HP Hb. unfold fini_at.
   replace (n * sz + sz <=? bsz) with true by (symmetry; apply Nat.leb_le; nia).
@@ -97,11 +97,11 @@ Lemma init_at_ok cf sz bsz n P x R src c :
   0 < sz -> length P = n -> (n + 1) * sz <= bsz ->
   (cf && match src with Some _ => true | None => false end) = false ->
   script_head (cscript c) = true ->
-  init_at cf sz bsz (n * sz) src (P ++ x :: R) c =
+  init_at true cf sz bsz (n * sz) src (P ++ x :: R) c =
   Ok (P ++ STok (cnext c) :: R,
       mkctx (S (cnext c)) (script_tail (cscript c)) (init_event (cnext c) src :: clog c), true).
 Proof.
-  intros Hs HP Hb Hcf Hh. unfold init_at. rewrite Hcf.
+  intros Hs HP Hb Hcf Hh. unfold init_at. cbn [negb]. rewrite Hcf.
   destruct c as [nx scr lg]. simpl in *. destruct scr as [|[|] r]; simpl in *; try discriminate.
   - rewrite construct_at_ok by assumption. reflexivity.
   - rewrite construct_at_ok by assumption. reflexivity.
@@ -110,17 +110,28 @@ Qed.
 Lemma init_at_refused cf sz bsz off src sl c :
   (cf && match src with Some _ => true | None => false end) = false ->
   script_head (cscript c) = false ->
-  init_at cf sz bsz off src sl c =
+  init_at true cf sz bsz off src sl c =
   Ok (sl, mkctx (cnext c) (script_tail (cscript c)) (clog c), false).
 Proof.
-  intros Hcf Hh. unfold init_at. rewrite Hcf.
+  intros Hcf Hh. unfold init_at. cbn [negb]. rewrite Hcf.
   destruct c as [nx scr lg]. simpl in *. destruct scr as [|[|] r]; simpl in *; try discriminate.
   reflexivity.
 Qed.
 
 Lemma init_at_copyfail sz bsz off x sl c :
-  init_at true sz bsz off (Some x) sl c = Ok (sl, c, false).
+  init_at true true sz bsz off (Some x) sl c = Ok (sl, c, false).
 Proof. reflexivity. Qed.
+
+(* traits without init function: the zero-filled slot is adopted as a new (empty) element; no
+   script entry is consumed, whatever the source *)
+Lemma init_at_noinit cf sz bsz n P x R src c :
+  0 < sz -> length P = n -> (n + 1) * sz <= bsz ->
+  init_at false cf sz bsz (n * sz) src (P ++ x :: R) c =
+  Ok (P ++ STok (cnext c) :: R,
+      mkctx (S (cnext c)) (cscript c) (init_event (cnext c) None :: clog c), true).
+Proof.
+  intros Hs HP Hb. unfold init_at. cbn [negb]. rewrite construct_at_ok by assumption. reflexivity.
+Qed.
 
 (* ---------------------------------------------------------------- monitor effect summaries *)
 
@@ -189,21 +200,21 @@ Proof. intros [_ _ _ L] H. apply L. left. split; [assumption|intros []]. Qed.
 
 (* ---------------------------------------------------------------- fini_loop *)
 
-Lemma fini_loop_done fuel sz bsz base i lim sl c :
-  lim <= i -> fini_loop fuel sz bsz base i lim sl c = Ok (sl, c).
+Lemma fini_loop_done hf fuel sz bsz base i lim sl c :
+  lim <= i -> fini_loop hf fuel sz bsz base i lim sl c = Ok (sl, c).
 Proof.
   intros H. destruct fuel; simpl; replace (i <? lim) with false by (symmetry; apply Nat.ltb_ge; lia);
     reflexivity.
 Qed.
 
-Lemma fini_loop_spec sz bsz bb :
+Lemma fini_loop_spec hf sz bsz bb :
   0 < sz ->
   forall ts fuel i P Q c m,
     length P = bb + i -> (bb + i + length ts) * sz <= bsz -> length ts <= fuel ->
     mon_ok c m -> NoDup ts -> incl ts (mlive m) ->
     exists c' m',
-      fini_loop fuel sz bsz (bb * sz) (i * sz) ((i + length ts) * sz) (P ++ map STok ts ++ Q) c
-      = Ok (P ++ map SDead ts ++ Q, c')
+      fini_loop hf fuel sz bsz (bb * sz) (i * sz) ((i + length ts) * sz) (P ++ map STok ts ++ Q) c
+      = Ok (P ++ map (dead hf) ts ++ Q, c')
       /\ mon_step c m c' m' ts [] /\ cscript c' = cscript c.
 Proof.
   intros Hs. induction ts as [|t ts IH]; intros fuel i P Q c m HP Hb Hf Hm ND IN.
@@ -219,9 +230,9 @@ Proof.
     destruct (mon_step_fini c m t Hm) as [m1 S1]; [apply IN; left; reflexivity|].
     replace (i * sz + sz) with (S i * sz) by nia.
     replace ((i + S (length ts)) * sz) with ((S i + length ts) * sz) by nia.
-    replace (P ++ SDead t :: map STok ts ++ Q) with ((P ++ [SDead t]) ++ map STok ts ++ Q)
+    replace (P ++ dead hf t :: map STok ts ++ Q) with ((P ++ [dead hf t]) ++ map STok ts ++ Q)
       by (rewrite <- app_assoc; reflexivity).
-    destruct (IH f (S i) (P ++ [SDead t]) Q (logev (EFini t) c) m1) as (c' & m' & E & S2 & SC).
+    destruct (IH f (S i) (P ++ [dead hf t]) Q (logev (EFini t) c) m1) as (c' & m' & E & S2 & SC).
     + rewrite app_length. simpl. lia.
     + nia.
     + lia.
@@ -268,12 +279,12 @@ Qed.
 (* ---------------------------------------------------------------- gap_loop *)
 
 (* k elements constructed, then either the end (k = n) or a refused constructor *)
-Lemma gap_loop_spec sz bsz :
+Lemma gap_loop_spec hi sz bsz :
   0 < sz ->
   forall G fuel i P Q c m,
     length P = i -> (i + length G) * sz <= bsz -> length G <= fuel -> mon_ok c m ->
     exists k c' m' ok,
-      gap_loop fuel sz bsz (i * sz) ((i + length G) * sz) (P ++ G ++ Q) c
+      gap_loop hi fuel sz bsz (i * sz) ((i + length G) * sz) (P ++ G ++ Q) c
       = Ok (P ++ map STok (seq (cnext c) k) ++ skipn k G ++ Q, c', (i + k) * sz, ok)
       /\ k <= length G /\ (ok = true -> k = length G) /\ (ok = false -> k < length G)
       /\ mon_step c m c' m' [] (seq (cnext c) k).
@@ -286,26 +297,49 @@ Proof.
     simpl gap_loop. rewrite mul_lt_mono by assumption.
     replace (i <? i + S (length G)) with true by (symmetry; apply Nat.ltb_lt; lia).
     simpl app.
-    destruct (script_head (cscript c)) eqn:SH.
-    + rewrite init_at_ok by (try assumption; try reflexivity; nia). cbn [bind].
-      destruct (mon_step_init c m None (script_tail (cscript c)) Hm I) as [m1 S1].
+    (* the continuation after the element at this position has been constructed / adopted *)
+    assert (CONT : forall scr,
+      exists k c' m' ok,
+        gap_loop hi f sz bsz (i * sz + sz) ((i + S (length G)) * sz) (P ++ STok (cnext c) :: G ++ Q)
+          (mkctx (S (cnext c)) scr (init_event (cnext c) None :: clog c))
+        = Ok (P ++ map STok (seq (cnext c) k) ++ skipn k (x :: G) ++ Q, c', (i + k) * sz, ok)
+        /\ k <= S (length G) /\ (ok = true -> k = S (length G)) /\ (ok = false -> k < S (length G))
+        /\ mon_step c m c' m' [] (seq (cnext c) k)).
+    { intros scr.
+      destruct (mon_step_init c m None scr Hm I) as [m1 S1].
       replace (i * sz + sz) with (S i * sz) by nia.
       replace ((i + S (length G)) * sz) with ((S i + length G) * sz) by nia.
       replace (P ++ STok (cnext c) :: G ++ Q) with ((P ++ [STok (cnext c)]) ++ G ++ Q)
         by (rewrite <- app_assoc; reflexivity).
       destruct (IH f (S i) (P ++ [STok (cnext c)]) Q
-                  (mkctx (S (cnext c)) (script_tail (cscript c)) (init_event (cnext c) None :: clog c)) m1)
+                  (mkctx (S (cnext c)) scr (init_event (cnext c) None :: clog c)) m1)
         as (k & c' & m' & ok & E & K1 & K2 & K3 & S2);
         [rewrite app_length; simpl; lia|nia|lia|apply S1|].
       exists (S k), c', m', ok. rewrite E. simpl in *. split.
       * rewrite <- app_assoc. simpl. replace (sz + (i + k) * sz) with ((i + S k) * sz) by nia. reflexivity.
       * split; [lia|]. split; [intros H; rewrite K2 by assumption; reflexivity|].
         split; [intros H; specialize (K3 H); lia|].
-        pose proof (mon_step_trans _ _ _ _ _ _ _ _ _ _ S1 S2) as T. simpl in T. apply T. intros y [].
-    + rewrite init_at_refused by (try assumption; reflexivity). cbn [bind].
-      exists 0, (mkctx (cnext c) (script_tail (cscript c)) (clog c)), m, false. simpl.
-      rewrite Nat.add_0_r. split; [reflexivity|]. split; [lia|]. split; [discriminate|]. split; [lia|].
-      apply mon_step_script. assumption.
+        pose proof (mon_step_trans _ _ _ _ _ _ _ _ _ _ S1 S2) as T. simpl in T. apply T. intros y []. }
+    destruct hi.
+    + destruct (script_head (cscript c)) eqn:SH.
+      * rewrite init_at_ok by (try assumption; try reflexivity; nia). cbn [bind]. apply CONT.
+      * rewrite init_at_refused by (try assumption; reflexivity). cbn [bind].
+        exists 0, (mkctx (cnext c) (script_tail (cscript c)) (clog c)), m, false. simpl.
+        rewrite Nat.add_0_r. split; [reflexivity|]. split; [lia|]. split; [discriminate|]. split; [lia|].
+        apply mon_step_script. assumption.
+    + rewrite init_at_noinit by (try assumption; nia). cbn [bind]. apply CONT.
+Qed.
+
+(* without init function the gap is always filled completely *)
+Lemma gap_loop_noinit_ok fuel sz bsz off lim sl c sl' c' reached ok :
+  gap_loop false fuel sz bsz off lim sl c = Ok (sl', c', reached, ok) -> ok = true.
+Proof.
+  revert off sl c. induction fuel as [|f IH]; intros off sl c; simpl.
+  - destruct (off <? lim); [discriminate|]. intros [= _ _ _ <-]. reflexivity.
+  - destruct (off <? lim); [|intros [= _ _ _ <-]; reflexivity].
+    unfold init_at. cbn [negb].
+    destruct (construct_at sz bsz off None sl c) as [[sl1 c1]| |]; cbn [bind]; try discriminate.
+    apply IH.
 Qed.
 
 (* ---------------------------------------------------------------- copy_loop *)
@@ -316,13 +350,13 @@ Definition srcs_ok (m : mon) (src : option (list slot)) (k n : nat) : Prop :=
   | Some s => forall j, j < n -> exists t, nth_error s (k + j) = Some (STok t) /\ In t (mlive m)
   end.
 
-Lemma copy_loop_spec cf sz bsz src :
+Lemma copy_loop_spec hi cf sz bsz src :
   0 < sz ->
   forall G fuel i k0 count P Q c m,
     length P = i -> (i + length G) * sz <= bsz -> length G <= fuel -> mon_ok c m ->
     srcs_ok m src k0 (length G) ->
     exists k c' m' count' failed,
-      copy_loop cf fuel sz bsz (i * sz) ((i + length G) * sz) k0 src count (P ++ G ++ Q) c
+      copy_loop hi cf fuel sz bsz (i * sz) ((i + length G) * sz) k0 src count (P ++ G ++ Q) c
       = Ok (P ++ map STok (seq (cnext c) k) ++ skipn k G ++ Q, c', count', failed)
       /\ k <= length G
       /\ (failed = None -> k = length G)
@@ -342,7 +376,7 @@ Proof.
       mon_step c m (mkctx (S (cnext c)) scr (ev :: clog c)) m1 [] [cnext c] ->
       c1 = mkctx (S (cnext c)) scr (ev :: clog c) ->
       exists k c' m' count' failed,
-        copy_loop cf f sz bsz (i * sz + sz) ((i + S (length G)) * sz) (S k0) src cnt
+        copy_loop hi cf f sz bsz (i * sz + sz) ((i + S (length G)) * sz) (S k0) src cnt
           (P ++ STok (cnext c) :: G ++ Q) c1
         = Ok (P ++ map STok (seq (cnext c) k) ++ skipn k (x :: G) ++ Q, c', count', failed)
         /\ k <= S (length G)
@@ -370,27 +404,36 @@ Proof.
     (* the default construction branch, from a context c1 that differs from c only in the script *)
     assert (DFLT : forall scr,
       exists k c' m' count' failed,
-        (do '(sl2, c2, ok) <- init_at false sz bsz (i * sz) None (P ++ x :: G ++ Q)
+        (do '(sl2, c2, ok) <- init_at hi false sz bsz (i * sz) None (P ++ x :: G ++ Q)
                                 (mkctx (cnext c) scr (clog c));
-         if ok then copy_loop cf f sz bsz (i * sz + sz) ((i + S (length G)) * sz) (S k0) src count sl2 c2
+         if ok then copy_loop hi cf f sz bsz (i * sz + sz) ((i + S (length G)) * sz) (S k0) src count sl2 c2
          else Ok (sl2, c2, count, Some (i * sz)))
         = Ok (P ++ map STok (seq (cnext c) k) ++ skipn k (x :: G) ++ Q, c', count', failed)
         /\ k <= S (length G)
         /\ (failed = None -> k = S (length G))
         /\ (forall p, failed = Some p -> p = (i + k) * sz /\ k < S (length G))
         /\ mon_step c m c' m' [] (seq (cnext c) k)).
-    { intros scr. destruct (script_head scr) eqn:SH.
-      - rewrite init_at_ok by (try assumption; try reflexivity; nia). cbn [bind]. simpl cnext. simpl clog.
-        destruct (mon_step_init c m None (script_tail scr) Hm I) as [m1 S1].
-        eapply CONT; [exact S1|reflexivity].
-      - rewrite init_at_refused by (try assumption; reflexivity). cbn [bind]. simpl.
-        exists 0, (mkctx (cnext c) (script_tail scr) (clog c)), m, count, (Some (i * sz)). simpl.
-        split; [reflexivity|]. split; [lia|]. split; [discriminate|]. split.
-        + intros p [= <-]. split; [nia|lia].
-        + apply mon_step_script. assumption. }
+    { intros scr. destruct hi.
+      - destruct (script_head scr) eqn:SH.
+        + rewrite init_at_ok by (try assumption; try reflexivity; nia). cbn [bind]. simpl cnext. simpl clog.
+          destruct (mon_step_init c m None (script_tail scr) Hm I) as [m1 S1].
+          eapply CONT; [exact S1|reflexivity].
+        + rewrite init_at_refused by (try assumption; reflexivity). cbn [bind]. simpl.
+          exists 0, (mkctx (cnext c) (script_tail scr) (clog c)), m, count, (Some (i * sz)). simpl.
+          split; [reflexivity|]. split; [lia|]. split; [discriminate|]. split.
+          * intros p [= <-]. split; [nia|lia].
+          * apply mon_step_script. assumption.
+      - rewrite init_at_noinit by (try assumption; nia). cbn [bind]. simpl cnext. simpl clog. simpl cscript.
+        destruct (mon_step_init c m None scr Hm I) as [m1 S1].
+        eapply CONT; [exact S1|reflexivity]. }
     destruct src as [s|] eqn:SRC.
     + (* with source data *)
       destruct (HS 0) as (t & Ht & Lt); [lia|]. rewrite Nat.add_0_r in Ht. rewrite Ht.
+      destruct hi.
+      2:{ (* no init function: the source is not looked at *)
+          rewrite init_at_noinit by (try assumption; nia). cbn [bind].
+          destruct (mon_step_init c m None (cscript c) Hm I) as [m1 S1].
+          eapply CONT; [exact S1|reflexivity]. }
       destruct cf.
       * rewrite init_at_copyfail. cbn [bind].
         destruct c as [nx scr lg]. apply (DFLT scr).
